@@ -537,14 +537,27 @@ impl SchedulerIncoming for Scheduler {
         {
             // LOCKS
             let mut jobs = self.jobs.lock().unwrap();
+            let servers = self.servers.lock().unwrap();
+
+            // The locks were released around `do_assign_job`: meanwhile the server may have
+            // re-registered with a new nonce or been pruned, which drops all of its jobs.
+            // Only record the job if the chosen server still lists it.
+            let still_assigned = servers
+                .get(&server_id)
+                .is_some_and(|details| details.jobs_assigned.contains(&job_id));
+            if !still_assigned || jobs.contains_key(&job_id) {
+                bail!(
+                    "Job {} is no longer assigned to server {:?}",
+                    job_id,
+                    server_id
+                );
+            }
 
             info!(
                 "Job {} successfully assigned and saved with state {:?}",
                 job_id, state
             );
-            assert!(jobs
-                .insert(job_id, JobDetail { server_id, state })
-                .is_none());
+            jobs.insert(job_id, JobDetail { server_id, state });
         }
         let job_alloc = JobAlloc {
             auth,
